@@ -83,6 +83,8 @@ type Attempt struct {
 	End     int64
 	Outcome string
 	Overlap bool // another attempt of the same oid was in flight when this began
+	Token   string `json:",omitempty"` // real adapters: which batch answer's action the request used ("<call>.<k>")
+	LateNs  int64  `json:",omitempty"` // real adapters: how long after that action's advertised expiry the request arrived (> 0 only)
 }
 
 type BatchCall struct {
@@ -249,6 +251,7 @@ type server struct {
 	sreqs    int
 	attempts []Attempt
 	sflying  map[string]int
+	expiry   map[string]int64 // action token -> advertised expiry on the now() clock (short-lived actions only)
 }
 
 // Content is the byte string of a real-adapter object.
@@ -285,7 +288,10 @@ func (s *server) storage(w http.ResponseWriter, r *http.Request) {
 		out = s.c.StorageFirst
 	}
 	s.sreqs++
-	at := Attempt{Oid: oid, Begin: now(), Outcome: out, Overlap: s.sflying[oid] > 0}
+	at := Attempt{Oid: oid, Begin: now(), Outcome: out, Overlap: s.sflying[oid] > 0, Token: r.URL.Query().Get("t")}
+	if exp, ok := s.expiry[oid+"@"+at.Token]; ok && at.Begin > exp {
+		at.LateNs = at.Begin - exp
+	}
 	s.sflying[oid]++
 	s.mu.Unlock()
 	finish := func(outcome string) {
@@ -310,6 +316,13 @@ func (s *server) storage(w http.ResponseWriter, r *http.Request) {
 				conn.Close()
 			}
 		}
+	}
+	if strings.HasPrefix(out, "hold:") {
+		// a slow transfer: the worker stays busy while the actions of the objects queued behind it age
+		ms := 0
+		fmt.Sscanf(strings.TrimPrefix(out, "hold:"), "%d", &ms)
+		time.Sleep(time.Duration(ms) * time.Millisecond)
+		out = "ok"
 	}
 	switch {
 	case o == nil:
@@ -422,6 +435,17 @@ func (s *server) handle(w http.ResponseWriter, r *http.Request) {
 				entry["actions"] = map[string]any{op: map[string]any{"href": href, "expires_in": -3600, "expires_at": time.Now().Add(time.Hour).UTC().Format(time.RFC3339)}}
 			case how == "soon":
 				entry["actions"] = map[string]any{op: map[string]any{"href": href, "expires_in": 3}}
+			case strings.HasPrefix(how, "in:"): // short-lived action, relative expiry
+				secs := 0
+				fmt.Sscanf(strings.TrimPrefix(how, "in:"), "%d", &secs)
+				entry["actions"] = map[string]any{op: map[string]any{"href": href, "expires_in": secs}}
+				s.expiry[o.Oid+"@"+fmt.Sprintf("%d.%d", n, k)] = now() + int64(secs)*int64(time.Second)
+			case strings.HasPrefix(how, "at:"): // short-lived action, absolute expiry (whole seconds)
+				secs := 0
+				fmt.Sscanf(strings.TrimPrefix(how, "at:"), "%d", &secs)
+				expAt := time.Now().Add(time.Duration(secs) * time.Second).UTC().Truncate(time.Second)
+				entry["actions"] = map[string]any{op: map[string]any{"href": href, "expires_at": expAt.Format(time.RFC3339)}}
+				s.expiry[o.Oid+"@"+fmt.Sprintf("%d.%d", n, k)] = now() + int64(time.Until(expAt))
 			case how == "noaction":
 			case strings.HasPrefix(how, "error:"):
 				code := 404
@@ -538,7 +562,7 @@ var QuietWindow = 20 * time.Second
 func Run(c Case, scratch string) *Record {
 	rec := &Record{Case: c, Events: map[string]int{}, RetryCounts: map[string]int64{}, BatchObjEvts: map[string]int{}, HookAttempts: map[string]int{}, LastAnswer: map[string]string{}}
 	start := time.Now()
-	srv := &server{c: &c, asked: map[string]int{}, last: map[string]string{}, adapter: "fake", sidx: map[string]int{}, sflying: map[string]int{}}
+	srv := &server{c: &c, asked: map[string]int{}, last: map[string]string{}, adapter: "fake", sidx: map[string]int{}, sflying: map[string]int{}, expiry: map[string]int64{}}
 	if c.Real {
 		srv.adapter = "basic"
 	}
